@@ -41,6 +41,10 @@ type c18Cfg struct {
 	Sharers  int    `json:"processors_sharing_the_limiter"`
 	Ext      bool   `json:"extension"`
 	Steps    int    `json:"steps"`
+	// SpikeUnset: the spike limit of the mode in use is left out (documented default: 20 % of the limit);
+	// Leftover: the settings of the OTHER mode are present too (validation accepts that, the mode in use ignores them)
+	SpikeUnset bool `json:"spike_limit_unset,omitempty"`
+	Leftover   int  `json:"leftover_settings_of_the_other_mode,omitempty"`
 }
 
 type memScript struct {
@@ -121,6 +125,14 @@ func runC18(r *simkit.Run) {
 			pctSpike = 1
 		}
 	}
+	cfg.SpikeUnset = tp.Chance(1, 6)
+	if tp.Chance(1, 5) {
+		cfg.Leftover = []int{20, 800, 5000}[tp.Draw(3)]
+	}
+	if cfg.SpikeUnset {
+		cfg.SpikeMiB = 0
+		pctSpike = 0
+	}
 	r.Sample = cfg
 	r.Logf("config %+v", cfg)
 	begin := time.Now()
@@ -138,9 +150,15 @@ func runC18(r *simkit.Run) {
 		if cfg.Percent {
 			c.MemoryLimitPercentage = pctLimit
 			c.MemorySpikePercentage = pctSpike
+			if cfg.Leftover > 0 {
+				c.MemorySpikeLimitMiB = uint32(cfg.Leftover) // left over from fixed settings: not used in this mode
+			}
 		} else {
 			c.MemoryLimitMiB = uint32(cfg.LimitMiB)
 			c.MemorySpikeLimitMiB = uint32(cfg.SpikeMiB)
+			if cfg.Leftover > 0 {
+				c.MemoryLimitPercentage, c.MemorySpikePercentage = 50, 10 // left over: limit_mib takes precedence
+			}
 		}
 		if err := c.Validate(); err != nil {
 			panic("harness: invalid memory limiter config: " + err.Error())
@@ -151,6 +169,9 @@ func runC18(r *simkit.Run) {
 	if cfg.Percent {
 		limit = uint64(pcfg.MemoryLimitPercentage) * cfg.TotalMiB * mib / 100
 		spike = uint64(pcfg.MemorySpikePercentage) * cfg.TotalMiB * mib / 100
+	}
+	if spike == 0 {
+		spike = limit / 5 // "default = 20% of the limit" (README of the processor and of the extension)
 	}
 	soft := limit - spike
 
@@ -235,9 +256,10 @@ func runC18(r *simkit.Run) {
 	ids := &gen.IDs{Prefix: "i"}
 	interval := time.Duration(cfg.CheckS) * time.Second
 	classes := []uint64{soft / 2, soft - 1, soft, soft + 1, (soft + limit) / 2, limit - 1, limit, limit + 1, limit * 2}
-	if cfg.Percent {
-		// a percentage of the total is not a whole number of bytes in general and the property does not say how it is
-		// rounded: readings stay 1 MiB clear of the two thresholds (the fixed-limit mode probes the exact boundaries)
+	if cfg.Percent || cfg.SpikeUnset {
+		// a percentage of the total (or the default spike, 20 % of the limit) is not a whole number of bytes in general
+		// and the property does not say how it is rounded: readings stay 1 MiB clear of the two thresholds (the
+		// fixed-limit mode with an explicit spike probes the exact boundaries)
 		classes = []uint64{soft / 2, soft - mib, soft + mib, (soft + limit) / 2, limit - mib, limit + mib, limit * 2}
 	}
 
